@@ -224,6 +224,12 @@ func (e *Explorer) Run() {
 	}
 	x.fixed = len(e.Prefix)
 	runs := int64(0)
+	lastCheck := time.Now()
+	if !e.Deadline.IsZero() && lastCheck.After(e.Deadline) {
+		e.St.Exhaustive = false
+		e.St.Capped = "internal deadline reached"
+		return
+	}
 	for {
 		belongs := e.runOnce(x)
 		if x.empty {
@@ -236,10 +242,12 @@ func (e *Explorer) Run() {
 		if !e.advance(x) {
 			break
 		}
-		if runs&0x3ff == 0 && !e.Deadline.IsZero() && time.Now().After(e.Deadline) {
-			e.St.Exhaustive = false
-			e.St.Capped = "internal deadline reached"
-			break
+		if runs&0x3f == 0 && !e.Deadline.IsZero() {
+			if now := time.Now(); now.After(e.Deadline) {
+				e.St.Exhaustive = false
+				e.St.Capped = "internal deadline reached"
+				break
+			}
 		}
 	}
 	for h := range e.outcomes {
